@@ -14,6 +14,7 @@ from __future__ import annotations
 import concurrent.futures as cf
 
 import jax.numpy as jnp
+import numpy as np
 
 from harness import l1, l1_err, realruns
 from harness.report import Report
@@ -77,10 +78,38 @@ def run(tier: str, seed: int) -> int:
                                   f"error_power^(-2(q+1)) = {got!r} but the documented estimate is {want!r}", {"config": {k: str(x) for k, x in c.items()}})
     rep.extra["estimates_dropped_for_32bit_overflow"] = dropped
     _invariance(rep, tier)
+    _second_order_ts0_vs_ts1(rep)
     rep.assumptions = [
         "scripted std / mean / RMS values (harness/tracing.py) make the estimate an exact rational; their numerical values are decided under C08",
     ]
     return rep.finish()
+
+
+def _second_order_ts0_vs_ts1(rep):
+    """second-order ODE whose right-hand side ignores the state: the zeroth- and the first-order linearisation are the
+    same affine model, so the residual-based acceptance quantity must coincide (in particular its dt^n / n! scaling with
+    n = differential order, per unit step n + 1) - in all three factorisations"""
+    u0, du0 = jnp.asarray([0.5, -1.0]), jnp.asarray([1.0, 0.25])
+    for ssm_name in ("dense", "iso", "bd"):
+        ssm = realruns.SSMS[ssm_name]()
+        ode = pdq.ode_order_two(lambda u, du, /, *, t: jnp.asarray([jnp.sin(t) + 1.0, -0.5 * t]) + 0.0 * u + 0.0 * du, jacobian=pdq.jacobian_materialize())
+        tc, _ = pdq.jetexpand_ode_padded_scan(num=2)(ode, (u0, du0), t=0.0)
+        for perunit in (False, True):
+            vals = {}
+            for ts in ("ts0", "ts1"):
+                prior = ssm.prior_wiener_integrated(tc)
+                constraint = ssm.constraint_ode_ts0(ode) if ts == "ts0" else ssm.constraint_ode_ts1(ode)
+                solver = realruns.make_solver("solver", "filter", constraint)
+                est = pdq.error_residual_std(constraint=constraint, error_per_unit_step=perunit)
+                s0 = solver.init(jnp.asarray(0.0), prior, damp=0.0)
+                s1 = solver.step(state=s0, dt=0.25, damp=0.0)
+                s2 = solver.step(state=s1, dt=0.25, damp=0.0)
+                ep, _ = est.estimate_error_norm(est.init_error(), previous=s1, proposed=s2, dt=0.25, atol=1e-3, rtol=1e-2, damp=0.0)
+                vals[ts] = float(ep)
+            rep.traces += 1
+            rep.add_case(("second-order-ts0-vs-ts1", ssm_name, perunit))
+            if not (np.isfinite(vals["ts0"]) and abs(vals["ts0"] - vals["ts1"]) <= 1e-9 * abs(vals["ts1"])):
+                rep.violation(f"impl:errnorm:residual:second-order:ts0-vs-ts1:{ssm_name}", f"per_unit_step={perunit}: error power {vals['ts0']} with TS0 but {vals['ts1']} with TS1 on a state-independent second-order right-hand side", {})
 
 
 def _invariance(rep, tier):
